@@ -33,7 +33,7 @@
 (* CancelNotForwardedToHandler (rpcCancelReq only cancels long polls; a    *)
 (* running handler is never interrupted by the client's cancel).           *)
 (***************************************************************************)
-EXTENDS Integers, Sequences, FiniteSets, TLC
+EXTENDS Integers, Sequences, FiniteSets, TLC, RpcLimits
 
 CONSTANTS
   Clients,        \* set of client names
@@ -339,10 +339,10 @@ RecvHdr(c) ==
           /\ srv' = [srv EXCEPT ![p.q] = [st |-> "needmem", out |-> "none", live |-> TRUE]]
           /\ sconn' = [sconn EXCEPT ![c].rl = p.q]
        \/ /\ p.k = "cancel"                   \* CancelNotForwardedToHandler: only long polls are cancelled
-          /\ mem + CtlTake <= MemLimit
+          /\ MemAdmits(mem, CtlTake, MemLimit)
           /\ UNCHANGED <<srv, sconn>>
        \/ /\ p.k = "fin"
-          /\ mem + CtlTake <= MemLimit
+          /\ MemAdmits(mem, CtlTake, MemLimit)
           /\ sconn' = [sconn EXCEPT ![c].st = IF @ = "open" THEN "shutdown" ELSE @]
           /\ UNCHANGED srv
   /\ c2s' = [c2s EXCEPT ![c] = Tail(@)]
@@ -351,7 +351,7 @@ RecvHdr(c) ==
 (* acquireRequestSema succeeded (TryAcquire, or Acquire after waiting)     *)
 AcquireMem(id) ==
   /\ srv[id].st = "needmem"
-  /\ mem + Take(id) <= MemLimit
+  /\ MemAdmits(mem, Take(id), MemLimit)
   /\ mem' = mem + Take(id)
   /\ srv' = [srv EXCEPT ![id].st = "needworker"]
   /\ UNCHANGED <<call, writeQ, inFlight, cli, c2s, s2c, link, proxy, sconn, orph, pool, srvSt, pend>>
@@ -366,7 +366,7 @@ RecvAbort(id) ==
 GetWorker(id) ==
   LET c == OwnerOf(id) IN
   /\ srv[id].st = "needworker" /\ MaxWorkers > 0
-  /\ pool.free > 0 \/ pool.created < MaxWorkers
+  /\ WorkerAvailable(pool.created, pool.free, MaxWorkers)
   /\ pool' = IF pool.free > 0 THEN [pool EXCEPT !.free = @ - 1] ELSE [pool EXCEPT !.created = @ + 1]
   /\ srv' = [srv EXCEPT ![id].st = "queued"]
   /\ sconn' = [sconn EXCEPT ![c].rl = IF @ = id THEN NoId ELSE @]
